@@ -21,6 +21,7 @@ type cgNode struct {
 	key, file, fn string
 	pos           token.Pos
 	out           map[string]bool
+	level         map[string]int // worst classification of the call sites of each edge (descent.go)
 	index, low    int
 	onStack       bool
 }
@@ -32,17 +33,23 @@ func newCallGraph() *callGraph { return &callGraph{nodes: map[string]*cgNode{}} 
 func (g *callGraph) node(key, file, fn string, pos token.Pos) *cgNode {
 	n := g.nodes[key]
 	if n == nil { // several init/_ functions share one node
-		n = &cgNode{key: key, file: file, fn: fn, pos: pos, out: map[string]bool{}}
+		n = &cgNode{key: key, file: file, fn: fn, pos: pos, out: map[string]bool{}, level: map[string]int{}}
 		g.nodes[key] = n
 	}
 	return n
 }
 
-func (g *callGraph) edge(from *cgNode, to string) { from.out[to] = true }
+func (g *callGraph) edge(from *cgNode, to string, level int) {
+	from.out[to] = true
+	if old, ok := from.level[to]; !ok || level < old {
+		from.level[to] = level
+	}
+}
 
 func (g *callGraph) selfLoop(encl *cgNode, varName string, pos token.Pos) {
 	n := g.node(encl.key+"."+varName, encl.file, encl.fn, pos)
 	n.out[n.key] = true
+	n.level[n.key] = lvlUnknown
 }
 
 // sccs: Tarjan; only the components that contain a cycle.
@@ -105,6 +112,10 @@ func (x *extractor) recursion() {
 		}
 		sort.Strings(names)
 		full := strings.Join(names, ",")
+		if structuralGroup(comp) {
+			x.recStructural = append(x.recStructural, full)
+			continue
+		}
 		expr := full
 		if len(full) > 120 { // keep the entry sensitive to every member of a large component
 			expr = truncate(fmt.Sprintf("%s...(%d functions, sha1 %x", truncate(full, 80), len(names), sha1.Sum([]byte(full))), 119) + ")"
@@ -146,15 +157,16 @@ func (x *extractor) summaryLine(ops []*Op) string {
 	for _, k := range keys {
 		parts = append(parts, fmt.Sprintf("%s=%d", k, kg[k]))
 	}
-	parts = append(parts, fmt.Sprintf("index_loop_bounded=%d slice_loop_bounded=%d", x.loopIdx, x.loopSlice))
+	parts = append(parts, fmt.Sprintf("index_loop_bounded=%d slice_loop_bounded=%d recursion_structural=%d", x.loopIdx, x.loopSlice, len(x.recStructural)))
 	return strings.Join(parts, " ")
 }
 
 func (x *extractor) json(ops []*Op) []byte {
 	kinds, guards, pkgs, kg := x.counts(ops)
 	sort.Strings(x.bounded)
+	sort.Strings(x.recStructural)
 	blob, err := json.MarshalIndent(map[string]any{
-		"ops": ops, "loop_bounded": x.bounded,
+		"ops": ops, "loop_bounded": x.bounded, "recursion_structural": x.recStructural,
 		"summary": map[string]any{"entries": len(ops), "files": x.nfiles, "per_kind": kinds, "per_guard": guards,
 			"per_package": pkgs, "per_kind_guard": kg, "index_loop_bounded": x.loopIdx, "slice_loop_bounded": x.loopSlice},
 	}, "", " ")
